@@ -21,7 +21,10 @@ EXPLANATION = (
     "and the propagator receives fields - field_shifts for the same field_shifts that enter the "
     "force-bias term. KEYS-1: mf_shifts, h0_prop, exp_h1 read by the step are written by the class's "
     "resolved _build_propagation_intermediates. SIB-2: the restricted and unrestricted builders agree "
-    "on the live keys under h1[0] == h1[1] (linear value numbering; see C14)."
+    "on the live keys under h1[0] == h1[1] (linear value numbering; see C14). "
+    "CAP-1 (Taylor series of the two-body propagator): the scan emits vhs^(k+1) w, the sum runs over "
+    "exactly as many indices as the scan has outputs, output n is divided by (n+1)!, the zeroth-order "
+    "term is the walker itself and the same one-body half step is applied on both sides. "
 )
 NOT_DECIDED = (
     "the whole first sentence of the property: the Gaussian field average, the mean-field subtraction "
